@@ -156,3 +156,74 @@ def _literal(e: ast.AST):
             vals = [s.lower() for s in seq]
             return set(vals) if isinstance(e, ast.SetComp) else vals
     return None
+
+
+def deep_subterms(ctx: Ctx, f: Func, t: Term, max_depth: int = 4):
+    """All (function, subterm) pairs reachable from ``t`` (evaluated in
+    ``f``): follows loop links, expands parameters backwards through every
+    resolved call site, and calls of package functions forwards through their
+    return terms (tuple items by position).  Context-insensitive, bounded."""
+    from .callgraph import _is_bound_call, bind_args
+
+    seen: set = set()
+    out: list = []
+
+    def visit(g: Func, x: Term, depth: int) -> None:
+        key = (g.qualname, x)
+        if key in seen or depth > max_depth:
+            return
+        seen.add(key)
+        k = x[0]
+        out.append((g, x))
+        if k == "rec" and len(x) >= 5:
+            visit(ctx.repo.funcs[x[3]], ctx.X.deref(x), depth)
+            return
+        if k == "param":
+            pf = ctx.repo.funcs.get(x[1])
+            if pf is not None:
+                for caller, call in ctx.cg.callers(pf):
+                    ct = ctx.X.at(caller, call)
+                    arg = bind_args(pf, ct, bound=_is_bound_call(ct, pf)).get(x[2])
+                    if arg is not None:
+                        visit(caller, arg, depth + 1)
+            return
+        if k == "item" and x[1][0] == "call":
+            done = False
+            for h in ctx.cg.resolve_fn(x[1][1], g):
+                rt = ctx.X.return_term(h)
+                for a in (rt[1] if rt[0] == "phi" else (rt,)):
+                    if a[0] == "tuple" and 0 <= x[2] < len(a[1]):
+                        visit(h, a[1][x[2]], depth + 1)
+                        done = True
+            if done:
+                return
+        if k == "call":
+            for h in ctx.cg.resolve_fn(x[1], g):
+                if h.name not in ("__init__", "__post_init__") and not isinstance(h.node, ast.Lambda):
+                    visit(h, ctx.X.return_term(h), depth + 1)
+        for y in x[1:]:
+            if isinstance(y, tuple):
+                if y and isinstance(y[0], str):
+                    visit(g, y, depth)
+                else:
+                    for z in y:
+                        if isinstance(z, tuple) and z and isinstance(z[0], str):
+                            visit(g, z, depth)
+                        elif isinstance(z, tuple):
+                            for w in z:
+                                if isinstance(w, tuple) and w and isinstance(w[0], str):
+                                    visit(g, w, depth)
+
+    visit(f, t, 0)
+    return out
+
+
+def deep_leaf_attrs(ctx: Ctx, f: Func, t: Term, max_depth: int = 4) -> set[str]:
+    """Names of attribute leaves (config fields etc.) ``t`` derives from."""
+    from .terms import root_of
+
+    out = set()
+    for _g, s in deep_subterms(ctx, f, t, max_depth):
+        if s[0] == "attr" and root_of(s)[0] in ("param", "rec"):
+            out.add(s[2])
+    return out
